@@ -538,20 +538,32 @@ def tags_c07(h, obs):
 
 # ------------------------------------------------------------------------------------------ model domain mask
 
-def mask_unmodelled(impl, model):
-    """The exec model prints `F:unmodelled:0` for a contract call outside its op language (governance, store, ...).
-    Such a receipt is blanked on both sides; everything else of the block line is still compared."""
+def mask_unmodelled(impl, model, ops=None):
+    """The exec model prints `F:unmodelled:0` for a transaction outside its op language (governance / store calls, raw
+    payloads, IBTPs with fields it cannot express).  Such a receipt is blanked on both sides; everything else of the block
+    line is still compared.  When an unmodelled IBTP *succeeded* on the real node the model cannot follow its effects:
+    the comparison of that history stops there."""
     oi, om = [], []
-    for a, b in zip(impl, model):
+    n = min(len(impl), len(model))
+    for idx in range(n):
+        a, b = impl[idx], model[idx]
         ma, mb = re.match(r"^(h=\d+ rc=\[)(.*?)(\].*)$", a or ""), re.match(r"^(h=\d+ rc=\[)(.*?)(\].*)$", b or "")
+        stop = False
         if ma and mb and "F:unmodelled:0" in mb.group(2):
             ra, rb = ma.group(2).split(" "), mb.group(2).split(" ")
             if len(ra) == len(rb):
+                txs = []
+                if ops is not None and idx < len(ops):
+                    txs = [t.strip().split(" ") for t in ops[idx][len("block"):].split(" | ")]
                 for i, x in enumerate(rb):
                     if x == "F:unmodelled:0":
+                        if ra[i].startswith("S:") and i < len(txs) and txs[i] and txs[i][0] == "ibtp":
+                            stop = True
                         ra[i] = rb[i] = "?"
                 a = ma.group(1) + " ".join(ra) + ma.group(3)
                 b = mb.group(1) + " ".join(rb) + mb.group(3)
+        if stop:
+            return oi, om
         oi.append(a)
         om.append(b)
     return oi + list(impl[len(oi):]), om + list(model[len(om):])
